@@ -254,22 +254,22 @@ var k3Except = map[string]string{}
 // K1arms exceptions: (function, class) pairs whose two arms legitimately differ because the
 // function converts to/from one fixed type of that very class.
 var k1armsExcept = map[string]string{
-	"tensor.(*Dense).FillValue/int":   "per-type fill constants (99, 9999, 999999) are data, not a template",
-	"tensor.(*Dense).FillValue/uint":  "per-type fill constants are data, not a template",
-	"tensor.convFromStrs/float":       "ParseFloat returns float64: the float64 arm stores directly, float32 narrows through a local",
-	"tensor.convFromFloat64s/float":   "source is []float64: the float64 arm copies, the float32 arm converts element by element",
-	"tensor.convFromFloat64s/complex": "source is float64: complex128 takes it as is, complex64 narrows",
-	"tensor.convToFloat64s/float":     "target is []float64: the float64 arm returns the slice itself",
-	"tensor.convToFloat64s/complex":   "target is float64: complex128's real part needs no widening",
-	"tensor.convToFloat64/float":      "target is float64: identity conversion for the float64 arm",
-	"tensor.convToFloat64/complex":    "target is float64: complex128's real part needs no widening",
-	"tensor.FromMat64/float":          "source is a float64 matrix: the float64 arm may share the backing, float32 must convert",
-	"tensor.Random/float":             "random generators exist per width (NormFloat64 only); outside every property",
-	"tensor.Random/complex":           "random generators exist per width; outside every property",
-	"tensor.Range/complex":            "complex(float32,float32) vs complex(float64,float64): the component type is the other width's name",
-	"tensor.SampleIndex/float":        "rand.Float32 vs rand.Float64: per-width library routine; outside every property",
-	"tensor.(StdEng).SoftMax/float":   "dispatch to per-width hand-written softmax; outside every property",
-	"tensor.(StdEng).SoftMaxB/float":  "dispatch to per-width hand-written softmax; outside every property",
+	"tensor.(*Dense).FillValue/int":     "per-type fill constants (99, 9999, 999999) are data, not a template",
+	"tensor.(*Dense).FillValue/uint":    "per-type fill constants are data, not a template",
+	"tensor.convFromStrs/float":         "ParseFloat returns float64: the float64 arm stores directly, float32 narrows through a local",
+	"tensor.convFromFloat64s/float":     "source is []float64: the float64 arm copies, the float32 arm converts element by element",
+	"tensor.convFromFloat64s/complex":   "source is float64: complex128 takes it as is, complex64 narrows",
+	"tensor.convToFloat64s/float":       "target is []float64: the float64 arm returns the slice itself",
+	"tensor.convToFloat64s/complex":     "target is float64: complex128's real part needs no widening",
+	"tensor.convToFloat64/float":        "target is float64: identity conversion for the float64 arm",
+	"tensor.convToFloat64/complex":      "target is float64: complex128's real part needs no widening",
+	"tensor.FromMat64/float":            "source is a float64 matrix: the float64 arm may share the backing, float32 must convert",
+	"tensor.Random/float":               "random generators exist per width (NormFloat64 only); outside every property",
+	"tensor.Random/complex":             "random generators exist per width; outside every property",
+	"tensor.Range/complex":              "complex(float32,float32) vs complex(float64,float64): the component type is the other width's name",
+	"tensor.SampleIndex/float":          "rand.Float32 vs rand.Float64: per-width library routine; outside every property",
+	"tensor.(StdEng).SoftMax/float":     "dispatch to per-width hand-written softmax; outside every property",
+	"tensor.(StdEng).SoftMaxB/float":    "dispatch to per-width hand-written softmax; outside every property",
 	"tensor.(StdEng).LogSoftMax/float":  "dispatch to per-width hand-written softmax; outside every property",
 	"tensor.(StdEng).LogSoftMaxB/float": "dispatch to per-width hand-written softmax; outside every property",
 }
